@@ -437,55 +437,84 @@ def _json_use_ok(n, has_json, aliases):
 
 
 def r5(repo, res):
+    """Multi-gene runs, genotype() folded whole (the recursive call re-enters the lifted routine): every gene gets the result
+    of its own single-gene run, with the caller's arguments and parameters, its own gene object, and a failing gene does not
+    disturb the others."""
+    from checks._genotype import GenotypeModel, Scenario, events
+    from sa.fold import Obj, Unfoldable
+
     g = repo.func("genotype::genotype")
     res.analysed(g)
-    rec = [c for c in calls_in(g) if call_name(c) == "genotype"]
-    res.floor("C14.R5", "per-gene recursive call", len(rec), 1)
-    pk = g.args.kwarg.arg if g.args.kwarg else None
-    for c in rec:
-        tr = None
-        p = getattr(c, "_parent", None)
-        while p is not None and p is not g:
-            if isinstance(p, ast.Try) and any(_inside(c, st) for st in p.body):
-                tr = p
-                break
-            p = getattr(p, "_parent", None)
-        ok = False
-        found = "recursive call is not inside a try block"
-        if tr is not None:
-            hs = [h for h in tr.handlers if h.type is not None and "AldyException" in ast.unparse(h.type)]
-            reraises = any(isinstance(n, ast.Raise) for h in hs for st in h.body for n in ast.walk(st))
-            ok = bool(hs) and not reraises
-            found = "except AldyException without re-raise" if ok else "handler missing or re-raises"
-        res.ob("C14.R5", g, c, ok, expected="a gene that fails with a reported error does not abort the other genes",
-               found=found, clause="a gene that cannot be genotyped in a multi-gene run does not change the results of the others",
-               key="recursion-in-try")
-        fw = any(k.arg is None and isinstance(k.value, ast.Name) and k.value.id == pk for k in c.keywords)
-        res.ob("C14.R5", g, c, fw, expected=f"parameters forwarded as **{pk} (a fresh mapping per gene)",
-               found="ok" if fw else "not forwarded by **", key="params-copied")
-        # the gene argument is the loop variable, everything else is passed through unchanged
-        loop = None
-        p = getattr(c, "_parent", None)
-        while p is not None and p is not g:
-            if isinstance(p, ast.For):
-                loop = p
-                break
-            p = getattr(p, "_parent", None)
-        ok = loop is not None and isinstance(loop.target, ast.Name) and c.args and isinstance(c.args[0], ast.Name) \
-            and c.args[0].id == loop.target.id
-        passthrough = [a.id for a in c.args[1:] if isinstance(a, ast.Name)]
-        params = [a.arg for a in g.args.args[1:1 + len(c.args) - 1]]
-        res.ob("C14.R5", g, c, ok and passthrough == params,
-               expected="recursive call = same arguments, only the gene replaced by the loop variable",
-               found=f"args {[ast.unparse(a) for a in c.args][:4]}..., positional pass-through {'ok' if passthrough == params else 'differs'}",
-               key="same-arguments")
-    # own Gene per call
-    cg = cfg_of(g)
-    ctor = [c for c in calls_in(g) if call_name(c) == "Gene"]
-    stage = find_calls(g, "estimate_cn")
-    ok = bool(ctor) and bool(stage) and cg.dominates(cg.node_of(ctor[0]), cg.node_of(stage[0]))
-    res.ob("C14.R5", g, ctor[0] if ctor else g, ok, expected="every single-gene run loads its own Gene before the first stage",
-           found="ok" if ok else "no dominating Gene(...) construction", key="own-gene")
+    gm = GenotypeModel(repo)
+    desc = dict(cn=[("A", 0.0), ("B", 0.05)], majors={"A": [("A1", 0.0)], "B": [("B1", 0.0)]}, minors={"A1": [("A1a", 0.0)], "B1": [("B1a", 0.0)]})
+
+    def summary(val, key):
+        lst = val.get(key) if isinstance(val, dict) else None
+        return None if lst is None else [(m.solution, round(m.score, 9), m.major_solution.solution) for m in lst]
+
+    try:
+        out = Obj(name="out.simple")
+        args = dict(output_file=out, solver="S1", reference="ref.fa", multiple_warn_level=2, report=False, genome="hg38", debug="dbg")
+        singles = {}
+        for gname in ("g1", "g2", "g3"):
+            k, v, tr, pr = gm.run(Scenario(args=dict(args, gene_db=gname), params=dict(gap=0.1, max_minor_solutions=2), **desc))
+            singles[gname] = (k, v, tr, "".join(t for t, fl in pr))
+        k, v, trace, printed = gm.run(Scenario(args=dict(args, gene_db="g1,g2,g3"), params=dict(gap=0.1, max_minor_solutions=2), fail_genes=("G2",), **desc))
+    except Unfoldable as e:
+        res.err("C14.R5", f"genotype() outside the folding language: {e}")
+        return
+    keys = list(v) if isinstance(v, dict) else []
+    same = k == "return" and len(keys) == 2 and all(summary(v, kk) == summary(singles[gn][1], list(singles[gn][1])[0])
+                                                     for kk, gn in zip(keys, ("g1", "g3")))
+    res.ob("C14.R5", g, g, same,
+           expected="genes g1,g2,g3 with g2 failing: the result holds g1 and g3, each equal to its own single-gene run",
+           found="ok" if same else f"{k}; genes {keys}; {[summary(v, kk) for kk in keys]}",
+           clause="a gene that cannot be genotyped in a multi-gene run does not change the results of the others", key="multi-gene-results")
+    genes = [t for t in events(trace, "Gene")]
+    cn = events(trace, "estimate_cn")
+    ok_gene = len(genes) == 3 and len({id(t[3]) for t in genes}) == 3 and [t[1]["name"] if isinstance(t[1], dict) else t[1].name for t in cn] == ["G1", "G2", "G3"] \
+        and all(t[2] == "hg38" for t in genes)
+    res.ob("C14.R5", g, g, ok_gene, expected="every gene of the run loads its own gene object (for the requested genome) and is the one its stages see",
+           found=f"{len(genes)} gene objects; structure stage saw {[getattr(t[1], 'name', None) for t in cn]}", key="own-gene")
+    ok_args = all(t[4] == {"solver": "S1", "debug": "dbg"} for t in cn) and all(t[5]["profile"].get("gap") == 0.1 and t[5]["profile"].get("max_minor_solutions") == 2 for t in cn) \
+        and all(sm[4] == "ref.fa" and sm[5] == "dbg" for sm in events(trace, "Sample"))
+    res.ob("C14.R5", g, g, ok_args, expected="solver, reference, debug prefix and the model parameters reach every gene's run unchanged",
+           found="ok" if ok_args else str([(t[4], t[5]["profile"].get("gap")) for t in cn]), key="same-arguments")
+    text = "".join(t for t, fl in printed if fl is out)
+    want_text = singles["g1"][3] + "SAMPLE\tG2\t\n" + singles["g3"][3]
+    res.ob("C14.R5", g, g, text == want_text, expected="the output holds each gene's own lines in request order; the failing gene leaves one closed empty line",
+           found="ok" if text == want_text else repr(text), key="multi-gene-output")
+    # the same for an aliased profile (exome: copy-number calling off, min_coverage preset): per gene, the stages of the multi-gene run
+    # see what they see in the single-gene run
+    try:
+        per = {}
+        for gname in ("g1", "g3"):
+            _, _, tr1, _ = gm.run(Scenario(args=dict(output_file=None, gene_db=gname, profile_name="exome"), **desc))
+            per[gname.upper()] = events(tr1, "estimate_cn")[0][5]
+        _, _, trm, _ = gm.run(Scenario(args=dict(output_file=None, gene_db="g1,g3", profile_name="exome"), **desc))
+    except (Unfoldable, IndexError) as e:
+        res.err("C14.R5", f"genotype() outside the folding language: {e}")
+        return
+    multi = {getattr(t[1], "name", None): t[5] for t in events(trm, "estimate_cn")}
+    oka = set(multi) == set(per) and all(multi[k_]["do_copy_number"] == per[k_]["do_copy_number"] and multi[k_]["profile"] == per[k_]["profile"] for k_ in per)
+    res.ob("C14.R5", g, g, oka, expected="exome profile: every gene of a multi-gene run is staged exactly as in its single-gene run (copy-number switch, presets)",
+           found="ok" if oka else str({k_: (multi.get(k_, {}).get("do_copy_number"), per[k_]["do_copy_number"]) for k_ in per}),
+           clause="a multi-gene run gives each gene the result of its single-gene run", key="multi-gene-alias")
+    # history: what an earlier call did to its gene (exome profiles switch copy-number calling off) does not reach a later call
+    try:
+        gm2 = GenotypeModel(repo)
+        first = gm2.run(Scenario(args=dict(output_file=None, gene_db="g1", profile_name="exome"), **desc))
+        second = gm2.run(Scenario(args=dict(output_file=None, gene_db="g1", profile_name="illumina"), **desc))
+        fresh = GenotypeModel(repo).run(Scenario(args=dict(output_file=None, gene_db="g1", profile_name="illumina"), **desc))
+    except Unfoldable as e:
+        res.err("C14.R5", f"genotype() outside the folding language: {e}")
+        return
+    a_, b_ = events(second[2], "estimate_cn"), events(fresh[2], "estimate_cn")
+    okh = bool(a_) and bool(b_) and a_[0][5]["do_copy_number"] == b_[0][5]["do_copy_number"] and a_[0][5]["profile"] == b_[0][5]["profile"] \
+        and summary(second[1], list(second[1])[0]) == summary(fresh[1], list(fresh[1])[0])
+    res.ob("C14.R5", g, g, okh, expected="the same call gives the same run whether or not another call (exome profile, same gene) came before it in the process",
+           found="ok" if okh else f"after an exome run: do_copy_number={a_[0][5]['do_copy_number'] if a_ else None}; fresh process: {b_[0][5]['do_copy_number'] if b_ else None}",
+           clause="results do not depend on what was genotyped earlier in the same process", key="history-independent")
     # no function-level cache decorators in the package
     for q, f in repo.all_functions():
         if isinstance(f, ast.Lambda):
